@@ -86,8 +86,12 @@ Theorem C09_invalid_is_rejected : forall lay full dims h,
 Proof. exact read_hyperslab_rejects. Qed.
 Print Assumptions C09_invalid_is_rejected.
 
+(* ReadSlice runs validateHyperslabSelection a second time inside readHyperslab (non-empty requests): more than
+   MaxHyperslabElements elements are refused, hence the bound (Props/C09File.v C09_file_read_slice_contiguous shows the
+   refusal at file level) *)
 Theorem C09_read_slice : forall lay full dims start count,
   Forall u64 dims -> layout_ok lay full dims -> dims <> [] ->
+  prodN count <= max_hyperslab_elements ->
   slice_valid start count dims ->
   read_slice lay full dims start count = Some (select full dims (slice_axes start count)).
 Proof. exact read_slice_ok. Qed.
@@ -101,7 +105,7 @@ Print Assumptions C09_read_slice_rejects.
 (* ---- chunk iterator *)
 Theorem C09_chunk_iter_tiles : forall full dims cdims,
   Forall u64 dims -> dims <> [] -> lenN full = prodN dims ->
-  length cdims = length dims -> Forall (fun c => 0 < c) cdims ->
+  length cdims = length dims -> Forall (fun c => 0 < c) cdims -> prodN cdims <= max_hyperslab_elements ->
   NoDup (iter_coords dims cdims) /\
   (forall x, Forall2 N.lt x dims ->
      exists cc, In cc (iter_coords dims cdims) /\ In x (sel_coords (box_axes dims cdims cc)) /\
